@@ -911,6 +911,17 @@ async fn input_processing(
                 if masked_input.is_some() {
                     return Err(MpcError::ConflictingInputMask(w).into());
                 }
+                // A party may only announce masked values for its own input wires.
+                let announced_by_owner = match circ.insts.get(w) {
+                    Some(inst) => match inst.op {
+                        Op::Input(Input { party, .. }) => party as usize == p,
+                        _ => false,
+                    },
+                    None => false,
+                };
+                if !announced_by_owner {
+                    return Err(MpcError::InstWithoutInput(w).into());
+                }
                 *masked_input = Some(*mask_other);
             }
         }
